@@ -160,6 +160,30 @@ theorem c35_utxo_parse_build (f : Flags) (e : Entry) (bs : List UInt8)
   subst hb
   exact parse_layout f e hv hr hlen
 
+/-- Beyond the updater's own order: EVERY push sequence the builder accepts (its state machine
+and flag asserts let through; `push_inscriptions` with raw bytes included) yields bytes that
+`parse` reads back without panicking, returning the pushed ranges or value, the pushed script,
+and the concatenation of the pushed inscription bytes.  (`hv`: `push_value` takes a u64.) -/
+theorem c35_builder_sound (f : Flags) (ops : List Op) (bs : List UInt8)
+    (h : runOps f ops = .ok bs) (hv : ∀ v, Op.value v ∈ ops → v < 2 ^ 64)
+    (hlen : bs.length < 2 ^ 64) :
+    ∃ (e : Entry) (raw : List UInt8),
+      parse f bs = .ok ⟨if f.sats then .ranges e.ranges else .value e.value,
+                        if f.addresses then some e.script else none,
+                        if f.inscriptions then some raw else none⟩ ∧
+      (f.sats = false → Op.value e.value ∈ ops) ∧ (f.inscriptions = false → raw = []) := by
+  obtain ⟨e, raw, hb, hr, hraw, hval⟩ := runOps_shape f ops bs h
+  subst hb
+  exact ⟨e, raw, parse_parts f e raw (fun hs => hv _ (hval hs)) hr hlen, hval, hraw⟩
+
+example : runOps ⟨true, false, true⟩ [.satRanges [], .inscriptions [1, 0, 0, 0, 5], .inscription 2 300] =
+    .ok [0, 1, 0, 0, 0, 5, 2, 0, 0, 0, 0xAC, 0x02] := by
+  have e0 : Varint.encode 0 = [0] := by rw [Varint.encode]; simp
+  have e300 : Varint.encode 300 = [0xAC, 0x02] := by
+    rw [Varint.encode]; simp; rw [Varint.encode]; simp
+  simp [runOps, applyOps, applyOp, pushSatRanges, pushInscriptions, pushInscription, advance,
+    Buf.new, asRef, encodeInscription, leBytes, e0, e300]
+
 /-- … and `parse_inscriptions` on it returns the inscription list that was pushed. -/
 theorem c35_utxo_inscriptions_roundtrip (f : Flags) (e : Entry) (hi : f.inscriptions = true)
     (h : ∀ i ∈ e.inscriptions, i.1 < 2 ^ 32 ∧ i.2 < 2 ^ 64) :
@@ -270,6 +294,17 @@ theorem c35_special_entries (f : Flags) :
     refine ⟨build_eq_layout f _ (fun _ => hl), ?_⟩
     unfold Special
     exact ⟨rfl, fun _ => rfl, fun _ => hl⟩
+
+/-- The same at the level of the cached buffer the updater mutates: `UtxoEntryBuf::empty` is a
+valid-state buffer holding the empty special entry, and `push_inscription` on a valid-state buffer
+holding a special entry trips neither the flag nor the state assert and yields the buffer holding
+that entry with the inscription appended. -/
+theorem c35_special_buffers (f : Flags) :
+    emptyBuf f = .ok ⟨layout f ⟨0, [], [], []⟩, .valid⟩ ∧
+    (∀ e i, f.inscriptions = true →
+      pushInscription f i ⟨layout f e, .valid⟩ =
+        .ok ⟨layout f { e with inscriptions := e.inscriptions ++ [i] }, .valid⟩) :=
+  ⟨emptyBuf_eq f, fun e i hf => pushInscription_layout f e i hf⟩
 
 /-- `merged(a, b)` of two special-outpoint entries: none of its `assert!`s (value zero, scripts
 empty, builder state, flags) nor any panic of the two `parse` calls fires, and the result is the
